@@ -647,7 +647,9 @@ func (c *Ctx) rebuiltLockstep(ip *ssa.Function, st *ssa.Store) bool {
 	if !okKey || !okVal {
 		return false
 	}
-	_, ne := c.Requires(ip, isInstr(st), func(l Lit) bool { return l.Pos && (l.Term == "nonempty("+valPhi+")" || l.Term == "nonempty("+valPhi2+")") }, nil)
+	_, ne := c.Requires(ip, isInstr(st), func(l Lit) bool {
+		return l.Pos && (l.Term == "nonempty("+valPhi+")" || l.Term == "nonempty("+valPhi2+")")
+	}, nil)
 	if !ne {
 		return false
 	}
